@@ -51,7 +51,8 @@ def raw_fields(r_, o_):
     return L.dict_set(L.dict_set(L.EMPTY_DICT, KREQ, named_td(DREQ, r_)), KOPT, named_td(DOPT, o_))
 
 
-ax("ntd-obs", L.FA([n, f], z3.And(td_name(named_td(n, f)) == n, td_ann(named_td(n, f)) == f, TY.is_tdmeta(named_td(n, f))), [named_td(n, f)]))
+# (named_td is a total function symbol: only a string name makes a TypedDict class)
+ax("ntd-obs", L.FA([n, f], z3.And(td_name(named_td(n, f)) == n, td_ann(named_td(n, f)) == f, z3.Implies(L.is_str(n), TY.is_tdmeta(named_td(n, f)))), [named_td(n, f)]))
 ax("ntd-inv", L.FA(t, z3.Implies(TY.is_tdmeta(t), t == named_td(td_name(t), td_ann(t))), [TY.is_tdmeta(t)]))
 ax("td-shape-def", L.FA(f, td_shape(f) == (f == raw_fields(sh_req(f), sh_opt(f))), [td_shape(f)]))
 ax("td-shape-intro", L.FA([a, b], td_shape(raw_fields(a, b)), [raw_fields(a, b)]))
